@@ -99,7 +99,7 @@ static int g_trace = 0;
 static void run_history(int family /*0 fast,1 HC*/, int nops, const char* mode, u8* dictbuf)
 {
     LZ4_stream_t* fs = LZ4_createStream(); LZ4_streamHC_t* hs = LZ4_createStreamHC(); LZ4_stream_t* dictFs = LZ4_createStream(); LZ4_streamHC_t* dictHs = LZ4_createStreamHC();
-    geom_t g; u8* safe = xalloc(65536 + 8); u8* dst = xalloc((size_t)LZ4_compressBound(MAXBLOCK) + 64); int level = 9; int i; const u8* lastSrc = NULL; size_t lastN = 0;
+    geom_t g; u8* safe = xalloc(65536 + MAXBLOCK + 8); long afterSaved = -1; u8* dst = xalloc((size_t)LZ4_compressBound(MAXBLOCK) + 64); int level = 9; int i; const u8* lastSrc = NULL; size_t lastN = 0;
     u8* dictCopyBefore = NULL; size_t attachedDictSize = 0; int attached = 0;
     int c18 = !strcmp(mode, "c18"), c12 = !strcmp(mode, "c12"), c17 = !strcmp(mode, "c17");
     memset(&g, 0, sizeof g); g.arena = xalloc(ARENA); g.size = ARENA; g.kind = c18 ? 3 : (int)rndn(4); g.ringSize = 2 * MAXBLOCK + rndn(3 * MAXBLOCK);
@@ -115,7 +115,9 @@ static void run_history(int family /*0 fast,1 HC*/, int nops, const char* mode, 
             int acc = (int[]){1,1,1,2,8,65537,0}[rndn(7)]; int cap, r;
             if (g.kind == 2 && n > MAXBLOCK) n = MAXBLOCK;
             src = place(&g, n);
-            if (g.kind == 1 && rndp(45)) { size_t k; for (k = 0; k < n; k++) if (rndn(40) == 0) src[k] = (u8)rnd(); }   /* ring: a revised version of what was at this address a lap ago */
+            if (afterSaved >= 0 && n <= MAXBLOCK && rndp(60)) src = safe + afterSaved;   /* next block right after the bytes LZ4_saveDict[HC] kept */
+            afterSaved = -1;
+            if (g.kind == 1 && src != safe + 0 && src >= g.arena && src < g.arena + g.size && rndp(45)) { size_t k; for (k = 0; k < n; k++) if (rndn(40) == 0) src[k] = (u8)rnd(); }   /* ring: a revised version of what was at this address a lap ago */
             else fill_block(src, n, g_hist, g_histSize, dictbuf, 70000);
             cap = rndp(80) ? LZ4_compressBound((int)n) : (int)rndn((u32)LZ4_compressBound((int)n) + 1);
             if (family == 1 && rndp(15)) { level = (int[]){1,2,3,5,9,10,11,12}[rndn(8)]; LZ4_setCompressionLevel(hs, level); if (rndp(50)) LZ4_favorDecompressionSpeed(hs, rndp(50)); }
@@ -141,9 +143,11 @@ static void run_history(int family /*0 fast,1 HC*/, int nops, const char* mode, 
             TR("saveDict want=%d got=%d", want, got);
             n_calls++; n_saves++; op_hist[1]++;
             if (got < 0 || got > want || got > 65536) { rec_t rr; rec_begin(&rr, OP_STREAMBLOCK); c_fail(&rr, "saveDict_bad_return"); }
+            else afterSaved = got;
             /* history may shrink to `got` bytes: the decoder still holds the full logical history (a superset) */
             if (g.kind == 3 || g.kind == 0) { /* after saving, the old location may be overwritten */ if (lastSrc && rndp(50)) memset((void*)lastSrc, 0xEE, lastN); }
         } else if (op < 76 && !c17) {
+            afterSaved = -1;
             /* ---- loadDict (fast: loadDict / loadDictSlow; HC: loadDictHC) ---- */
             static const size_t ds[] = {0, 1, 3, 4, 7, 8, 100, 65535, 65536, 70000}; size_t d = ds[rndn(10)]; const u8* dict = dictbuf + (70000 - d);
             if (family == 0) { if (rndp(50)) LZ4_loadDict(fs, (const char*)dict, (int)d); else LZ4_loadDictSlow(fs, (const char*)dict, (int)d); }
@@ -152,6 +156,7 @@ static void run_history(int family /*0 fast,1 HC*/, int nops, const char* mode, 
             n_calls++; n_loads++; op_hist[2]++;
             hist_reset(); hist_append(dict, d); mirror_reset(dict, d);
         } else if (op < 84 && !c17) {
+            afterSaved = -1;
             /* ---- attach a prepared dictionary stream (after the documented reset) ---- */
             static const size_t ds[] = {0, 4, 8, 100, 4000, 65536, 70000}; size_t d = ds[rndn(7)]; const u8* dict = dictbuf + (70000 - d);
             if (family == 0) { LZ4_loadDict(dictFs, (const char*)dict, (int)d); LZ4_resetStream_fast(fs); LZ4_attach_dictionary(fs, dictFs); free(dictCopyBefore); dictCopyBefore = xalloc(sizeof(LZ4_stream_t)); memcpy(dictCopyBefore, dictFs, sizeof(LZ4_stream_t)); }
@@ -162,10 +167,12 @@ static void run_history(int family /*0 fast,1 HC*/, int nops, const char* mode, 
             n_calls++; n_attach++; op_hist[3]++;
             hist_reset(); hist_append(dict, d > 65536 ? 65536 : d); if (d > 65536) { hist_reset(); hist_append(dict + d - 65536, 65536); } mirror_reset(dict, d);
         } else if (op < 90 && !c17) {
+            afterSaved = -1;
             /* ---- documented reset ---- */
             if (family == 0) LZ4_resetStream_fast(fs); else LZ4_resetStreamHC_fast(hs, level);
             TR("reset"); n_calls++; n_resets++; op_hist[4]++; hist_reset(); mirror_reset(NULL, 0); attached = 0;
         } else if (op < 96 && !c17) {
+            afterSaved = -1;
             /* ---- one-shot fast-reset compressions on the same state (C18): each output decodes with NO history.
              *      A burst of small records laid out contiguously, with no other call in between, is the classic reuse pattern. ---- */
             int reps = rndp(50) ? 1 : 2 + (int)rndn(7); int k; u8* base; size_t off = 0; static const size_t ns[] = {0, 12, 13, 100, 1000, 4095, 4096, 4097, 65546, 65547, 65548, 69000};
@@ -187,6 +194,7 @@ static void run_history(int family /*0 fast,1 HC*/, int nops, const char* mode, 
             if (family == 0) LZ4_resetStream_fast(fs); else LZ4_resetStreamHC_fast(hs, level);
             hist_reset(); mirror_reset(NULL, 0); attached = 0;
         } else if (family == 1) {
+            afterSaved = -1;
             /* ---- HC continue_destSize, then continue from the first unconsumed byte (C17) ---- */
             int target, r, consumed; size_t offered = 2000 + rndn(60000);
             if (g.kind == 1 || g.kind == 2) { g.kind = 0; g.pos = 6 * MAXBLOCK; }   /* the offered region is larger than a ring slot / double buffer: continue contiguously elsewhere */
